@@ -142,8 +142,10 @@ func (P *Prog) discoverRoles() error {
 	}{{&R.FData, "Data"}, {&R.FValPtr, "ValPtr"}, {&R.FPath, "Path"}, {&R.FDType, "DType"}, {&R.FCanCatch, "CanCatch"},
 		{&R.FExit, "Exit"}, {&R.FHasCaught, "HasCaught"}, {&R.FTest, "Test"}, {&R.FExecCtx, "ExecCtx"}} {
 		*f.dst = structField(R.SchemaCtx, f.name)
-		// HasCaught may legitimately be removed by a repair; everything else is required.
-		if *f.dst == nil && f.name != "HasCaught" {
+		// HasCaught may legitimately be removed by a repair. Test (the "current test" slot of the node context) is
+		// needed by the rules that decide which test an issue is built from only: without it those rules report,
+		// the other properties are still decided. Everything else is required.
+		if *f.dst == nil && f.name != "HasCaught" && f.name != "Test" {
 			missing = append(missing, "SchemaCtx."+f.name)
 		}
 	}
